@@ -54,7 +54,7 @@ let () = iter_lines (fun line ->
            let (r, st') = zck_close h_stub h !st in
            st := st';
            Buffer.add_string b (Printf.sprintf " q=%d!%s" (if r then 1 else 0) (err ()))
-         | 'g' | 'c' | 'G' ->
+         | 'g' | 'c' | 'G' | 'P' ->
            let body = String.sub o 1 (String.length o - 1) in
            let (k, sz) = match String.split_on_char ':' body with
              | [k] -> (int_of_string k, None) | k :: s :: _ -> (int_of_string k, Some (n_of_string s)) | [] -> (0, None) in
@@ -62,13 +62,15 @@ let () = iter_lines (fun line ->
             | None -> Buffer.add_string b (Printf.sprintf " %c=nochunk" o.[0])
             | Some c when n_to_int !st.r_err > 0 -> Buffer.add_string b (Printf.sprintf " %c=nochunk" o.[0])
             | Some c ->
-              let want = match sz with Some s when o.[0] = 'G' -> s | _ -> if o.[0] = 'c' then c.c_clen else c.c_ulen in
+              let want = match sz with Some s when o.[0] = 'G' || o.[0] = 'P' -> s | _ -> if o.[0] = 'c' then c.c_clen else c.c_ulen in
               let (r, st') = if o.[0] = 'c' then zck_get_chunk_comp_data h f !st (nat_of_int k) want
                              else zck_get_chunk_data h_stub zdecomp_stub h f inf !st (nat_of_int k) want in
               st := st';
+              let pre o' = if o.[0] = 'P' then (let s = string_of_bytes o' in let d = n_to_int c.c_ulen in
+                                                   "/" ^ h16s (String.sub s 0 (min d (String.length s)))) else "" in
               (match r with
-               | ROk o' -> Buffer.add_string b (Printf.sprintf " %c=%d/%d/%s!%s" o.[0] (List.length o') (List.length o') (h16 o') (err ()))
-               | RErr cd -> Buffer.add_string b (Printf.sprintf " %c=%s/0/%s!%s" o.[0] (zs cd) (h16s "") (err ()))
+               | ROk o' -> Buffer.add_string b (Printf.sprintf " %c=%d/%d/%s%s!%s" o.[0] (List.length o') (List.length o') (h16 o') (pre o') (err ()))
+               | RErr cd -> Buffer.add_string b (Printf.sprintf " %c=%s/0/%s%s!%s" o.[0] (zs cd) (h16s "") (pre []) (err ()))
                | RFuel -> Buffer.add_string b (Printf.sprintf " %c=FUEL" o.[0])))
          | _ -> Buffer.add_string b " ?") (String.split_on_char ',' ops);
        let v = spec_verify h_stub h f in
@@ -76,6 +78,14 @@ let () = iter_lines (fun line ->
        let ks = List.mapi (fun k _ -> match spec_chunk_data zdecomp_stub h f (nat_of_int k) with
                                       | Some d -> Printf.sprintf "%d/%s" (List.length d) (h16 d) | None -> "X") h.h_chunks in
        let ss = List.map (fun c -> let s = stored (body h f) c in Printf.sprintf "%d/%s" (List.length s) (h16 s)) h.h_chunks in
-       Printf.printf "%s | SPEC V=%d D=%s K=%s S=%s\n" (Buffer.contents b) (if v then 1 else 0) d (String.concat "," ks) (String.concat "," ss)
+       (* per entry: does the stored chunk match its index digest / content the spec decodes from the entry alone *)
+       let all_zero l = List.for_all (fun x -> n_to_int x = 0) l in
+       let cs = List.mapi (fun k c ->
+           let st = stored (body h f) c in
+           let ok = if n_to_int c.c_clen = 0 then all_zero c.c_digest else h_stub h.h_chash st = c.c_digest in
+           let cont = match spec_chunk_content zdecomp_stub h f (nat_of_int k) with
+             | Some d -> Printf.sprintf "%d/%s" (List.length d) (h16 d) | None -> "X" in
+           Printf.sprintf "%d/%s" (if ok then 1 else 0) cont) h.h_chunks in
+       Printf.printf "%s | SPEC V=%d D=%s K=%s S=%s C=%s\n" (Buffer.contents b) (if v then 1 else 0) d (String.concat "," ks) (String.concat "," ss) (String.concat "," cs)
      | _ -> print_endline "open=0 | SPEC -")
   | _ -> print_endline "BADCASE")
